@@ -531,6 +531,36 @@ fn one_case(c: &mut Ctx, pool: &Pool, parts: &Parts, branch: BranchId, origin: &
             c.r.violation(&format!("C04:{v}:txid-not-sha256d"), "txid of a pre-v5 transaction is not sha256d of its serialisation", replay(&bytes, branch, &coins, json!(null)));
         }
     }
+    // the identifiers must not depend on how the reader delivers the bytes (the pre-v5 txid is
+    // computed by a hashing reader while parsing): the same bytes through a reader that returns
+    // short, irregular reads
+    {
+        struct Dribble<'a>(&'a [u8], usize, usize);
+        impl std::io::Read for Dribble<'_> {
+            fn read(&mut self, buf: &mut [u8]) -> std::io::Result<usize> {
+                self.2 = self.2 % 7 + 1;
+                let n = self.2.min(buf.len()).min(self.0.len() - self.1);
+                buf[..n].copy_from_slice(&self.0[self.1..self.1 + n]);
+                self.1 += n;
+                Ok(n)
+            }
+        }
+        let start = c.rng.gen_range(0..7);
+        c.r.evals(1);
+        c.r.count("parses_through_short_read_reader", 1);
+        match guard(|| Transaction::read(Dribble(&bytes, 0, start), branch)) {
+            Ok(Ok(t)) => {
+                if t.txid() != tx.txid() {
+                    c.r.violation(&format!("C04:{v}:txid-depends-on-reader-chunking"), format!("txid {} from a slice, {} when the same bytes arrive in pieces of 1..7 bytes", hexs(tx.txid().as_ref()), hexs(t.txid().as_ref())), replay(&bytes, branch, &coins, json!(null)));
+                }
+                if t.auth_commitment().as_bytes() != tx.auth_commitment().as_bytes() {
+                    c.r.violation(&format!("C04:{v}:auth-commitment-depends-on-reader-chunking"), "authorizing commitment differs between slice and short-read parse".to_string(), replay(&bytes, branch, &coins, json!(null)));
+                }
+            }
+            Ok(Err(e)) => c.r.violation(&format!("C04:{v}:short-read-parse-rejected"), format!("accepted from a slice, rejected in pieces: {e}"), replay(&bytes, branch, &coins, json!(null))),
+            Err(p) => c.r.violation(&format!("C04:{v}:panic:{}", panic_class(&p)), p, replay(&bytes, branch, &coins, json!(null))),
+        }
+    }
     // the event budget goes to v5 first (the only version with an independent digest reference)
     let ev_ok = if ver == Ver::V5 { c.events_left > 0 } else { c.events_left > c.events_reserved_v5 };
     if ev_ok && c.r.has_events() && bytes.len() <= 80_000 {
